@@ -171,3 +171,11 @@ Definition obj_obs (c : N * text * text * bool * bool * nat) : text * N * option
   let r := word_object big include t i in
   let s := apply_op k ins (mkO t i None) (match k with OpDelete => delete_promote t r | _ => r end) in
   (o_text s, N.of_nat (o_cur s), o_reg s).
+
+(** an operator over a line motion: (operator, typed text, text, 0 j / 1 k / 2 G / 3 gg, count or None, cursor) *)
+Definition opv_obs (c : N * text * text * N * option nat * nat) : text * N * option (bool * text) :=
+  let '(k, ins, t, m, count, i) := c in
+  let k := if k =? 0 then OpDelete else if k =? 1 then OpYank else OpChange in
+  let m := if m =? 0 then VDown else if m =? 1 then VUp else if m =? 2 then VGoto else VFirst in
+  let s := run_op_v k ins t m count i in
+  (o_text s, N.of_nat (o_cur s), o_reg s).
